@@ -27,10 +27,17 @@ def case_strategy(depth, special_share=8):
     return st.one_of(*([with_values(False)] * (special_share - 1) + [with_values(True)]))
 
 
+def strlike(shape):
+    """str / restricted str / Enum, possibly under Optional: positions whose values are written as bare words"""
+    while shape[0] == "opt":
+        shape = shape[1]
+    return shape[0] in ("str", "rstr", "enum")
+
+
 def render_arg(shape, v):
     """one command line item for a top-level value; None when it has no unambiguous spelling"""
-    if shape[0] == "str" and isinstance(v, str):
-        return v if "\x00" not in v else None
+    if isinstance(v, str) and strlike(shape):
+        return v if "\x00" not in v else None  # a top-level string is passed raw (JSON quotes would become part of it)
     try:
         t = json.dumps(G.to_jsonable(v), ensure_ascii=False, allow_nan=False)
     except (TypeError, ValueError):
